@@ -4,6 +4,7 @@
 //!   verif-replay kani <harness> <json array of byte vectors>   replay a Kani counterexample natively
 use risinglight::storage::verif_hooks as h;
 use serde_json::{Value, json};
+mod sql;
 
 fn le_u32(b: &[u8]) -> u32 { let mut a = [0u8; 4]; a[..b.len().min(4)].copy_from_slice(&b[..b.len().min(4)]); u32::from_le_bytes(a) }
 fn le_i32(b: &[u8]) -> i32 { le_u32(b) as i32 }
@@ -217,6 +218,11 @@ fn search(unit: &str, depth: usize) -> Value {
                 if let Err(e) = h::varint_roundtrip(v) { return json!({"found": true, "tried": tried, "input": {"v": v}, "observed": e}); }
             }
         }
+        "sqlorder" => return sql::order(depth),
+        "sqlrange" => return sql::range(depth),
+        "sqlagg" => return sql::agg(depth),
+        "sqljoin" => return sql::join(depth),
+        "sqlhistory" => return sql::history(depth),
         _ => return json!({"found": false, "tried": 0, "note": format!("no native search for unit {unit}")}),
     }
     json!({"found": false, "tried": tried})
@@ -229,6 +235,16 @@ fn main() {
         Some("kani") => {
             let vals: Vec<Vec<u8>> = serde_json::from_str(&a[3]).expect("json array of byte arrays");
             kani(&a[2], &vals)
+        }
+        // verif-replay sql <mem|disk:BLOCK:ROWSET> <json list of statements> [json list of reopen points]
+        Some("sql") => {
+            let disk = a[2].strip_prefix("disk:").map(|r| { let v: Vec<usize> = r.split(':').map(|x| x.parse().unwrap()).collect(); (v[0], v[1]) });
+            let sqls: Vec<String> = serde_json::from_str(&a[3]).expect("json list of statements");
+            let reopen: Vec<usize> = a.get(4).map(|r| serde_json::from_str(r).expect("json list")).unwrap_or_default();
+            match h::sql_session(disk, &sqls, &reopen) {
+                Ok(outs) => json!({"results": outs.iter().map(|o| match o { Ok(rows) => json!({"rows": rows}), Err(e) => json!({"error": e}) }).collect::<Vec<_>>()}),
+                Err(e) => json!({"session_error": e}),
+            }
         }
         _ => json!({"error": "usage: verif-replay search <unit> [depth] | kani <harness> <json>"}),
     };
